@@ -140,30 +140,46 @@ def check(ctx):
         rmv = [b for b, t, fr in crd.iter_calls() if fr and lib.tail(mir.fn_name(fr), 2) in ("EntityCommands::remove", "EntityWorldMut::remove")
                and any("EntityWorldLocal" in a for a in fr.get("args", []))]
         qg = [b for b, t, fr in crd.iter_calls() if fr and lib.tail(mir.fn_name(fr), 2) == "Query::get" and lib.originates_from_arg(crd, t["args"][1], 1)]
-        iss = [(b, t, lib.tail(mir.fn_name(fr), 1)) for b, t, fr in crd.iter_calls() if fr and lib.tail(mir.fn_name(fr), 2) in ("Option::is_some", "Option::is_none")]
-        finds = [(b, t) for b, t, fr in crd.iter_calls() if fr and lib.tail(mir.fn_name(fr), 1) in ("find", "any", "position")]
-        ok = len(rmv) == 1 and len(qg) == 1 and len(iss) == 1 and len(finds) == 1
+        # "no remaining entry of this reactor": accepted idioms  find(..).is_some()/is_none(),  position(..) None arm,
+        # find(..) matched on None,  any(..) == false  -  all over the entity's own reactors with predicate `== id`
+        searches = [(b, t, lib.tail(mir.fn_name(fr), 1)) for b, t, fr in crd.iter_calls() if fr and lib.tail(mir.fn_name(fr), 1) in ("find", "any", "position", "find_map")]
+        none_heads = []
+        for (sb_, st_, nm_) in searches:
+            if nm_ == "any":
+                for (x, tt, ft) in lib.bool_arms(crd, sb_):
+                    none_heads.append(ft)
+            else:
+                for (x, ok_t, fail_t) in lib.result_arms(crd, sb_):
+                    none_heads.append(fail_t)
+                for b2, t2, fr2 in crd.iter_calls():
+                    if fr2 and lib.tail(mir.fn_name(fr2), 2) in ("Option::is_some", "Option::is_none") and lib.originates_from_call(crd, t2["args"][0], sb_):
+                        for (x, tt, ft) in lib.bool_arms(crd, b2):
+                            none_heads.append(ft if lib.tail(mir.fn_name(fr2), 1) == "is_some" else tt)
+        ok = len(rmv) == 1 and len(qg) == 1 and len(searches) == 1 and bool(none_heads)
         if ok:
             arms_q = lib.result_arms(crd, qg[0])
-            arms_s = lib.bool_arms(crd, iss[0][0])
-            none_arm = arms_s[0][2] if iss[0][2] == "is_some" else arms_s[0][1]
-            ok = bool(arms_q) and bool(arms_s) and crd.dominates(arms_q[0][1], rmv[0]) and crd.dominates(none_arm, rmv[0])
-            ok = ok and lib.originates_from_call(crd, iss[0][1]["args"][0], finds[0][0])
-            # find over the entity's own reactors, predicate compares with the given id
-            r = lib.receiver_chains(crd, finds[0][1]["args"][0])
+            ok = bool(arms_q) and crd.dominates(arms_q[0][1], rmv[0]) and lib.dominated_by_any(crd, rmv[0], none_heads)
+            # the search runs over the entity's own reactors ...
+            ok = ok and any(fr and lib.tail(mir.fn_name(fr), 2) == "EntityReactors::iter_reactors" for b, t, fr in crd.iter_calls())
+            r = lib.receiver_chains(crd, searches[0][1]["args"][0])
             ok = ok and any("iter_reactors" in lib.tail(n_, 1) for _, ch in r for n_ in ch) or ok and any(
-                fr and lib.tail(mir.fn_name(fr), 2) == "EntityReactors::iter_reactors" for b, t, fr in crd.iter_calls())
+                lib.originates_from_call(crd, searches[0][1]["args"][0], b) for b, t, fr in crd.iter_calls() if fr and lib.tail(mir.fn_name(fr), 2) == "EntityReactors::iter_reactors") \
+                or ok and receiver_from_iter_reactors(crd, searches[0][1]["args"][0])
+            # ... with a predicate that compares the element with the given reactor id
             pred = None
-            for o in origins(crd, finds[0][1]["args"][1]):
+            for o in origins(crd, searches[0][1]["args"][1]):
                 if o[0] == "agg":
                     pred = crd.blocks[o[1]]["stmts"][o[2]]["rv"]["agg"]
             pb = prog.body(pred["closure"]) if pred else None
             okp = False
             if pb is not None:
-                for b, t, fr in pb.iter_calls():
-                    if fr and lib.tail(mir.fn_name(fr), 1) == "eq":
-                        both = origins(pb, t["args"][0]) | origins(pb, t["args"][1])
-                        okp = any(o[0] == "arg" and o[1] == 2 for o in both) and any(o[0] == "arg" and o[1] == 1 for o in both)
+                reqs = lib.true_return_requirements(pb)
+                idc = set()
+                for (b, t, fr, is_eq) in lib.comparison_calls(pb):
+                    both = origins(pb, t["args"][0]) | origins(pb, t["args"][1])
+                    if any(o[0] == "arg" and o[1] == 2 for o in both) and any(o[0] == "arg" and o[1] == 1 for o in both):
+                        idc.add(b)
+                okp = bool(reqs) and bool(idc) and all(any(rq.get(b) is True for b in idc) for rq in reqs)
                 okp = okp and all(lib.originates_from_arg(crd, c, 1, (".0", ".0")) for c in pred["ops"])
             ok = ok and okp
             # removed from the same entity that was looked up
@@ -220,3 +236,13 @@ def check(ctx):
                   "data is read at the entity that is reported (%s)" % sorted(lib.tail(k, 2) for k in keys),
                   "EntityLocal::%s reports entity from %s but reads data at %s" % (nm, sorted(rets), sorted(keys)))
     ctx.floor("C16.d", n, 8, "shared EntityLocal gating obligations")
+
+
+def receiver_from_iter_reactors(body, op):
+    """the receiver (possibly `&mut iter`) derives from a call to EntityReactors::iter_reactors"""
+    for o in origins(body, op):
+        if o[0] == "call":
+            fr = op_fn(body.blocks[o[1]]["term"]["func"])
+            if fr and lib.tail(mir.fn_name(fr), 2) == "EntityReactors::iter_reactors":
+                return True
+    return False
